@@ -160,7 +160,7 @@ func (rs *runState) collectRaces() {
 				if ta > tb {
 					ta, tb = tb, ta
 				}
-				rs.violations = append(rs.violations, Violation{Sub: "race", Idx: -1,
+				rs.addViolation(Violation{Sub: "race", Idx: -1,
 					Sig:    fmt.Sprintf("race:%s:%s:%s:%s", fa, fb, ta, tb),
 					What:   "data race reported by the Go race detector: " + pair[0] + " <-> " + pair[1],
 					Detail: map[string]any{"report": head(block, 6000), "log": filepath.Base(f)}})
